@@ -420,6 +420,13 @@ def run(c, chk):
         sub = report.SubCheck(chk, 'R12.10', 'C11', only=('R11.1',))
         c11.run(c, sub)
         sub.done('name lookup')
+        # R12.14: "without the flag the item is rejected with a diagnostic": the diagnostic of an undeclared item inside a section
+        # reaches the error function of the context (rule R6.5 of C06: a section is handed its parent's error function before its body)
+        from . import c06 as _c06h
+        chk.rule('R12.14', 'a section body is parsed with the error function of its parent (rule R6.5 of C06): the rejection of an undeclared item inside a section is delivered, not dropped')
+        sub = report.SubCheck(chk, 'R12.14', 'C06', only=('R6.5',))
+        _c06h.run(c, sub)
+        sub.done('section hand-over')
 
 
 def why_class(why):
